@@ -2,7 +2,9 @@ package c24
 
 import (
 	"bytes"
+	"compress/flate"
 	"compress/gzip"
+	"compress/zlib"
 	"io"
 
 	"github.com/andybalholm/brotli"
@@ -26,4 +28,15 @@ var zstdDec, _ = zstd.NewReader(nil, zstd.WithDecoderConcurrency(0))
 
 func unzstd(b []byte) ([]byte, error) {
 	return zstdDec.DecodeAll(b, nil)
+}
+
+// inflate decodes Content-Encoding: deflate, i.e. the zlib format (RFC 1950); raw RFC 1951 data is tolerated.
+func inflate(b []byte) ([]byte, error) {
+	if zr, err := zlib.NewReader(bytes.NewReader(b)); err == nil {
+		defer zr.Close()
+		return io.ReadAll(zr)
+	}
+	fr := flate.NewReader(bytes.NewReader(b))
+	defer fr.Close()
+	return io.ReadAll(fr)
 }
